@@ -8,3 +8,31 @@ package health
 //@   assigns abool(p.stopped)
 //@ func (p *Prober) Start
 //@   assigns spawned[*]
+
+// C10: whatever is configured, the effective probe parameters are legal.
+//@ define probeLegal(p *Probe) bool = p.InitialDelay >= 0 && p.PeriodSeconds >= 1 && p.TimeoutSeconds >= 1 && p.SuccessThreshold >= 1 && p.FailureThreshold >= 1
+
+//@ func (p *HttpProbe) validateAndSetHttpDefaults
+//@   ensures port: p.NumPort == 0 || (1 <= p.NumPort && p.NumPort <= 65535)
+//@   ensures unset: p.Port == "" ==> p.NumPort == 0
+//@   ensures parsed: p.Port != "" ==> p.NumPort == ite(1 <= atoiVal(p.Port) && atoiVal(p.Port) <= 65535, atoiVal(p.Port), 0)
+//@   ensures keephost: isDefinedHost(old(p.Host)) ==> p.Host == old(p.Host)
+//@   assigns p.Host, p.Scheme, p.Path, p.NumPort
+//@ define isDefinedHost(s string) bool = len(trimSpace(s)) != 0
+
+//@ func (p *Probe) ValidateAndSetDefaults
+//@   ensures legal: probeLegal(p)
+//@   ensures http-port: p.HttpGet != nil ==> p.HttpGet.NumPort == 0 || (1 <= p.HttpGet.NumPort && p.HttpGet.NumPort <= 65535)
+//@   ensures keep: (old(p.InitialDelay) >= 0 ==> p.InitialDelay == old(p.InitialDelay)) && (old(p.PeriodSeconds) >= 1 ==> p.PeriodSeconds == old(p.PeriodSeconds)) &&
+//@                 (old(p.TimeoutSeconds) >= 1 ==> p.TimeoutSeconds == old(p.TimeoutSeconds)) && (old(p.SuccessThreshold) >= 1 ==> p.SuccessThreshold == old(p.SuccessThreshold)) &&
+//@                 (old(p.FailureThreshold) >= 1 ==> p.FailureThreshold == old(p.FailureThreshold))
+//@   ensures defaults: (old(p.InitialDelay) < 0 ==> p.InitialDelay == 0) && (old(p.PeriodSeconds) < 1 ==> p.PeriodSeconds == 10) && (old(p.TimeoutSeconds) < 1 ==> p.TimeoutSeconds == 1) &&
+//@                 (old(p.SuccessThreshold) < 1 ==> p.SuccessThreshold == 1) && (old(p.FailureThreshold) < 1 ==> p.FailureThreshold == 3)
+//@   assigns p.InitialDelay, p.PeriodSeconds, p.TimeoutSeconds, p.SuccessThreshold, p.FailureThreshold, p.HttpGet.Host, p.HttpGet.Scheme, p.HttpGet.Path, p.HttpGet.NumPort
+
+// outcome decoding: ok / fatal, and nothing is reported once the prober was stopped
+//@ func (p *Prober) healthCheckCompleted
+//@   param onCheckEndFunc as checkend
+//@   ensures stopped: abool(p.stopped) ==> checkEnds() == old(checkEnds())
+//@   ensures reported: !abool(p.stopped) ==> checkEnds() == old(checkEnds()) + 1 && (lastCheckOk() <==> state.Status == "ok") && (lastCheckFatal() <==> state.ContiguousFailures == p.probe.FailureThreshold)
+//@   assigns checkEnds(), lastCheckOk(), lastCheckFatal()
